@@ -227,7 +227,10 @@ def gen_reference(ctx, comps, a, b):
     if all(c[0] in ("const", "mono") for c in comps) and rng.random() < 0.7:
         return "exact", [dc.comp_integral(c, np.array(a, float), np.array(b, float)) for c in comps]
     true = dc.gauss_reference(comps, np.array(a), np.array(b), n=16)
-    kind = rng.choice(["quad", "quad", "quad", "offset", "zero"])
+    kind = rng.choice(["quad", "quad", "quad", "offset", "zero", "tiny"])
+    if kind == "tiny":
+        # a reference that is tiny but NOT zero: the error is still the relative deviation (seed C13_4 replaced the exact zero test by np.isclose)
+        return "tiny", [rng.choice([-1.0, 1.0]) * 10.0 ** (-rng.uniform(9.0, 12.0)) for _ in comps]
     if kind == "quad" and np.all(np.abs(true) > 1e-8):
         return "quad", [float(x) for x in true]
     if kind == "zero":
